@@ -111,7 +111,7 @@ def summarise(analysis, it, outs, root, ctxname, check_r3=False, gw=None) -> dic
             a = discharge(v)
             escapes.append({"key": escape_key(v), "cls": v.cls.__name__, "site": v.site, "what": v.what, "assumed": a, "witness": describe_path(out)})
         for e in st.events:
-            if e.kind == "enter" and e.name == "message:Message.validate" and len(e.args) >= 2 and 2 <= len(e.stack) <= 4 and all(str(f).startswith("__init__:Gateway.") for f in list(e.stack)[:-1]):
+            if e.kind == "enter" and e.name == "message:Message.validate" and len(e.args) >= 2 and 2 <= len(e.stack) <= 4 and str(list(e.stack)[0]) == "__init__:Gateway.logic" and all(str(f).startswith("__init__:") for f in list(e.stack)[:-1]):
                 # called from logic itself or from a helper method of the gateway on logic's behalf
                 validate_args.add(repr(e.args[1].key()))
             if e.kind == "store" and e.name in HEADER and isinstance(e.recv, Obj) and e.recv.cls == "message:Message":
